@@ -210,6 +210,20 @@ def squareWave {α : Type} (tukey : Nat → α) (low : α) (p : SqP) (offset sam
   let i0 : Int := ((offset : Rat) / p.period).floor
   squareLoop tbl p offset samples (squareFuel p samples) i0 env
 
+/-- Specification: the modulation period in progress at absolute sample `k`, i.e. the last
+period whose rounded start is `≤ k` (`startOf (periodAt k) ≤ k < startOf (periodAt k + 1)`,
+proved in `PsiProofs/Helper/C01_SquareEnv.lean`).  `fm_samples * i ≤ k + 1/2` with the
+half-even tie (`fm_samples * i = k + 1/2` rounds up to `k + 1` when `k` is odd) taken out. -/
+def SqP.periodAt (p : SqP) (k : Nat) : Int :=
+  let m : Int := (((k : Rat) + 1 / 2) / p.period).floor
+  if p.startOf m ≤ (k : Int) then m else m - 1
+
+/-- Specification of `square_wave` at absolute sample `k`: inside the first `duty` samples
+of the period in progress the Tukey table entry, else the minimum modulation depth. -/
+def squareAt {α : Type} (tukey : Nat → α) (low : α) (p : SqP) (k : Nat) : α :=
+  let d : Int := (k : Int) - p.startOf (p.periodAt k)
+  if d < (p.duty : Int) then tukey d.toNat else low
+
 /-! ### `SquareWaveFactory.next` (stim.py 1174-1180) -/
 
 def sqwLoop {α : Type} (cycle on : Nat) (high : α) (samples : Nat) : Nat → Int → List α → List α
